@@ -293,6 +293,17 @@ theorem oneShotE_is_stateless_partial (given : Option Name) (force : Bool) (d : 
   simp only [hl, cpyInner, cpyOut]
   cases (incOut c d true).err <;> simp
 
+/-- the abstraction behind T7.5 is exact for CPython's decoder objects: after ANY history of chunks that did not
+raise, the next call `decode(x, final)` of the inner decoder object (state = BOM sniffing mode + pending bytes)
+raises iff the data so far is ill-formed, and otherwise returns exactly what the CSS decoder machine of the
+model takes as the inner decoder's answer (`feedInner cpyInner`: text of everything so far minus the text
+already returned) -/
+theorem inner_object_refines_feed (c : CName) (E : Name) (hl : lookupName E = some c) (xs : List (List Nat))
+    (x : List Nat) (f : Bool) (s : ISt) (t0 : List Nat) (h : irun c c.init xs = some (s, t0)) :
+    (istep c s x f).map (·.2) =
+      if errAt E (xs.flatten ++ x) f then none else some (feedInner cpyInner E xs.flatten x f) :=
+  istep_is_feedInner c E hl xs x f s t0 h
+
 /-- T7.5 (encoder side) with the exception: some call of `IncrementalEncoder.encode` raises
 (`UnicodeEncodeError`: a surrogate, or a character the given / declared encoding cannot represent) iff one-shot
 `encode` raises, for every chunking of the text; otherwise the same bytes -/
@@ -533,5 +544,7 @@ example : lookupName (finalEnc none true [0x61, 0xC3, 0xA9]) = some (.plain .u8)
 example : erunAllE cpyInnerEnc (some (cps' "ascii")) [[0x61], [0xE9]] = none ∧
     encodeOneShotE cpyInnerEnc (some (cps' "ascii")) [0x61, 0xE9] = none := by decide
 example : erunAllE cpyInnerEnc (some (cps' "latin-1")) [[0x61], [0xE9]] = some [0x61, 0xE9] := by decide
+example : irun (.plain .u8) (CName.init (.plain .u8)) [[0x61, 0xE2], [0x82]] = some (⟨some .u8, [0xE2, 0x82]⟩, [0x61]) := by
+  decide
 
 end CssVerif.C07
